@@ -1939,6 +1939,34 @@ func (g *goLayouts) blindIn(fd *ast.FuncDecl, depth int, seen map[*ast.FuncDecl]
 	if why == "" && g.movesBytesByHand(fd) {
 		why = fd.Name.Name + " assembles or scatters bytes by hand"
 	}
+	// an encoder that writes at two different position variables fills in a field later (a length back-filled after the
+	// entries were written): the order of the put calls is then not the order of the bytes
+	if why == "" && enc {
+		lows := map[types.Object]bool{}
+		ast.Inspect(fd.Body, func(n ast.Node) bool {
+			ce, ok := n.(*ast.CallExpr)
+			if !ok {
+				return true
+			}
+			fn := g.calleeOf(ce)
+			if fn == nil || !(strings.HasPrefix(fn.Name(), "put") || strings.HasPrefix(fn.Name(), "Put")) {
+				return true
+			}
+			for _, a := range ce.Args {
+				if se, ok := a.(*ast.SliceExpr); ok && se.Low != nil {
+					if id, ok := se.Low.(*ast.Ident); ok {
+						if obj := g.info.ObjectOf(id); obj != nil {
+							lows[obj] = true
+						}
+					}
+				}
+			}
+			return true
+		})
+		if len(lows) >= 2 {
+			why = "fields written at a saved position (back-filled)"
+		}
+	}
 	return why
 }
 
